@@ -274,13 +274,27 @@ Definition keep_all (f : frame) : bool := true.
 Definition lastn_frames (k : nat) (x : log) : log := rev (firstn k (rev x)).
 Definition mr_tail (k : nat) (l : log) : log := lastn_frames k (filter mr_keep l).
 Definition mr_tail_complete (k : nat) (l : log) : bool := (length (filter mr_keep l) <=? k)%nat.
-Definition tail_path (limit k : nat) (l : log) (a : N) : option (log * N) :=
+(* WHAT the acceptance test of an incomplete tail counts (`let message_count = …` of
+   load_context_compile_input_recent_messages_v1; the expression is read from the source on every run by
+   tools/gen/compile_consts.py -> Gen/CompileConsts.v gen_tail_count):
+     CountUpToCut   message_events.iter().filter(|(seq, _)| *seq <= from_seq).count()   the code as it is
+     CountAll       message_events.len()   (every message of the scanned tail, also those after the cut: unsound,
+                    tail_count_all_refuted) *)
+Inductive tail_count := CountUpToCut | CountAll.
+Definition tail_message_count (r : tail_count) (from : N) (evs : log) : nat :=
+  match r with
+  | CountUpToCut => count_msgs_upto from evs
+  | CountAll => length (filter is_msg evs)
+  end.
+Definition tail_count_sound (r : tail_count) : bool := match r with CountUpToCut => true | CountAll => false end.
+Definition tail_path_with (r : tail_count) (limit k : nat) (l : log) (a : N) : option (log * N) :=
   let evs := mr_tail k l in
   match tail_cut evs (head_seq l) a with
   | Some from =>
-    if mr_tail_complete k l || (limit <=? count_msgs_upto from evs)%nat then Some (evs, from) else None
+    if mr_tail_complete k l || (limit <=? tail_message_count r from evs)%nat then Some (evs, from) else None
   | None => None            (* anchor not in this tail: the caller doubles the budget or falls back *)
   end.
+Definition tail_path : nat -> nat -> log -> N -> option (log * N) := tail_path_with CountUpToCut.
 
 (* window_recent_messages_v1_from_message_id_messages_runs_v1: backwards from the boundary over the mr sidecar,
    `if event.seq > from_seq {continue}; push; if message { found += 1; if found >= limit {break} }` *)
